@@ -876,7 +876,7 @@ class Cache(object):
         n_to = page * limit
         db_txs = self.session.query(DbCacheTransaction).\
             filter(DbCacheTransaction.block_height == height, DbCacheTransaction.index >= n_from,
-                   DbCacheTransaction.index < n_to).all()
+                   DbCacheTransaction.index < n_to).order_by(DbCacheTransaction.index).all()
         txs = []
         for db_tx in db_txs:
             t = self._parse_db_transaction(db_tx)
